@@ -62,6 +62,26 @@ theorem isValid_encoded (cps : List Nat) (h : ∀ c ∈ cps, c < 0x110000) :
 theorem length_no_oob (b : Nat) : utf8Length b ≤ 4 ∧ ∃ v, rd utf8Offsets (utf8Length b) = .ok v :=
   ⟨utf8Length_le b, offsets_ok _ (utf8Length_le b)⟩
 
+/-- the same over the TRANSLATED table of `Unicode::length` (256 values obtained by executing the current source): every
+    entry is a valid index of the 5-entry `utf8Offsets` (the seeded change C18-5 - 5/6 for F8..FD - makes exactly this fail) -/
+theorem length_table_indexes_offsets : ∀ b, b < 256 → utf8LengthTable.getD b 0 < utf8Offsets.length := by
+  decide +kernel
+
+/-- for EVERY lead byte 0x00..0xFF, every tail and every length available to the caller: the index `fromString` uses for
+    `utf8Offsets` is below 5, and neither `fromString` nor `isValid` reads outside the range -/
+theorem lead_byte_bounds (b : UInt8) (tail : List Nat) (len : Nat) (hl : len ≤ tail.length + 1) :
+    utf8Length b.toNat < utf8Offsets.length ∧ fromString (b.toNat :: tail) len ≠ .oob ∧
+      isValid (b.toNat :: tail) len ≠ .oob := by
+  refine ⟨?_, ?_, ?_⟩
+  · have := utf8Length_le b.toNat
+    have h5 : utf8Offsets.length = 5 := by decide
+    omega
+  · obtain ⟨v, hv⟩ := fromString_ok (b.toNat :: tail) len (by simpa using hl)
+    rw [hv]; intro h; cases h
+  · obtain ⟨v, hv⟩ := isValidLoop_ok (b.toNat :: tail) len (by simpa using hl) len 0 len (by omega) (by omega)
+    unfold isValid
+    rw [hv]; intro h; cases h
+
 /-- `Unicode::fromString(ch, len)` never reads outside `[ch, ch+len)` (nor outside `utf8Offsets`),
     for ARBITRARY bytes and every range lying inside the memory block. -/
 theorem fromString_no_oob (mem : List Nat) (len : Nat) (hl : len ≤ mem.length) :
@@ -205,6 +225,94 @@ theorem base64_table_read_in_bounds (b : UInt8) : b64Byte b.toNat ≠ .oob :=
 theorem base64_reserve_suffices (inlen : Nat) (h : inlen % 4 = 0) : 3 * (inlen / 4) ≤ b64Reserve inlen :=
   reserve_enough inlen h
 
+/-! ### the accepted language of `fromBase64`, case by case (all are corollaries of `base64_spec`)
+
+  "Rejected" = the function returns the empty String (`return String()`); that is also the result for the empty
+  input and for inputs that encode no complete byte (`"A=AA"`), so acceptance is observable only through the bytes. -/
+
+/-- the translated per-byte tests over ALL 256 byte values: `=` leaves the loop, an alphabet character yields its RFC 4648
+    value, every other byte - in particular every byte >= 0x80 and `{`..DEL, the region of C18-6 / D26 - rejects; the table
+    read is never out of bounds (it is `.ok`) -/
+theorem base64_byte_classification (b : UInt8) :
+    b64Byte b.toNat = .ok (if b.toNat = 61 then .stop else
+      match Spec.b64Val? b.toNat with | some v => .val v | none => .reject) ∧
+    (123 ≤ b.toNat → b64Byte b.toNat = .ok .reject) := by
+  refine ⟨b64Byte_classifies _ b.toNat_lt, ?_⟩
+  intro h
+  rw [b64Byte_classifies _ b.toNat_lt, if_neg (by omega), high_not_alphabet _ h]
+
+/-- rejected: every input whose length is not a multiple of four -/
+theorem base64_rejects_length (inp : List Nat) (hb : ∀ b ∈ inp, b < 256) (h : inp.length % 4 ≠ 0) :
+    fromBase64 inp = .ok [] := by
+  rw [fromBase64_spec inp hb]; unfold Spec.b64Decode; rw [if_pos h]
+
+/-- rejected: every input with a byte outside the alphabet (any control char, space, `-`, `_`, `{`..DEL, EVERY byte >= 0x80)
+    in front of the first `=`, whatever precedes (alphabet characters) and follows it -/
+theorem base64_rejects_outside_alphabet (pre : List Nat) (b : Nat) (rest : List Nat)
+    (hb : ∀ x ∈ pre ++ b :: rest, x < 256) (hpre : ∀ c ∈ pre, (Spec.b64Val? c).isSome = true)
+    (hbad : Spec.b64Val? b = none) (h61 : b ≠ 61) : fromBase64 (pre ++ b :: rest) = .ok [] := by
+  rw [fromBase64_spec _ hb]; unfold Spec.b64Decode
+  by_cases h : (pre ++ b :: rest).length % 4 ≠ 0
+  · rw [if_pos h]
+  · rw [if_neg h, scan_prefix pre hpre, scan_bad b rest hbad h61]; rfl
+
+/-- `=` is accepted at ANY position (misplaced padding is not rejected): decoding stops at the first `=`, everything
+    behind it (more symbols, more `=`, garbage, bytes >= 0x80) is ignored, the result is the complete bytes of the
+    symbols in front of it -/
+theorem base64_stops_at_first_pad (pre rest : List Nat) (hb : ∀ x ∈ pre ++ 61 :: rest, x < 256)
+    (hpre : ∀ c ∈ pre, (Spec.b64Val? c).isSome = true) (hlen : (pre ++ 61 :: rest).length % 4 = 0) :
+    fromBase64 (pre ++ 61 :: rest) = .ok (Spec.decodeVals (b64Vals pre)) := by
+  rw [fromBase64_spec _ hb]; unfold Spec.b64Decode
+  rw [if_neg (by omega), scan_prefix pre hpre, scan_pad]
+  simp
+
+/-- an input of alphabet characters only (length a multiple of four) decodes to three bytes per four symbols -/
+theorem base64_unpadded (inp : List Nat) (hb : ∀ x ∈ inp, x < 256)
+    (hin : ∀ c ∈ inp, (Spec.b64Val? c).isSome = true) (hlen : inp.length % 4 = 0) :
+    fromBase64 inp = .ok (Spec.decodeVals (b64Vals inp)) := by
+  rw [fromBase64_spec _ hb]; unfold Spec.b64Decode
+  have := scan_prefix inp hin []
+  rw [List.append_nil] at this
+  rw [if_neg (by omega), this]
+  simp [Spec.b64Scan]
+
+/-- non-canonical trailing bits are NOT rejected: in a final group `x y z =` the two low bits of `z` (and in `x y = =` the
+    four low bits of `y`) are dropped, so symbols that differ only there decode alike (RFC 4648 section 3.5 lets a decoder
+    reject them; this one does not) -/
+theorem base64_trailing_bits_ignored (x y z z' : Nat) (vx vy vz vz' : Nat)
+    (hx : Spec.b64Val? x = some vx) (hy : Spec.b64Val? y = some vy) (hz : Spec.b64Val? z = some vz)
+    (hz' : Spec.b64Val? z' = some vz') (hsame : vz / 4 = vz' / 4) :
+    fromBase64 [x, y, z, 61] = fromBase64 [x, y, z', 61] ∧
+      fromBase64 [x, y, z, 61] = .ok [vx * 4 + vy / 16, vy % 16 * 16 + vz / 4] := by
+  have lt : ∀ c v, Spec.b64Val? c = some v → c < 256 := by
+    intro c v h
+    have := (val_is_char c v h)
+    by_cases hc : c < 123
+    · omega
+    · rw [high_not_alphabet c (by omega)] at h; cases h
+  have e : ∀ w vw, Spec.b64Val? w = some vw → fromBase64 [x, y, w, 61] = .ok [vx * 4 + vy / 16, vy % 16 * 16 + vw / 4] := by
+    intro w vw hw
+    have hb : ∀ q ∈ [x, y, w, 61], q < 256 := by
+      intro q hq
+      simp only [List.mem_cons, List.not_mem_nil, or_false] at hq
+      rcases hq with rfl | rfl | rfl | rfl
+      · exact lt _ _ hx
+      · exact lt _ _ hy
+      · exact lt _ _ hw
+      · decide
+    have := base64_stops_at_first_pad [x, y, w] [] hb (by
+      intro c hc
+      simp only [List.mem_cons, List.not_mem_nil, or_false] at hc
+      rcases hc with rfl | rfl | rfl <;> simp [hx, hy, hw]) (by simp)
+    simp only [List.cons_append, List.nil_append] at this
+    rw [this]
+    simp [b64Vals, hx, hy, hw, Spec.decodeVals]
+  rw [e z vz hz, e z' vz' hz', hsame]
+  exact ⟨rfl, rfl⟩
+
+example : fromBase64 [90, 109, 57, 61] = .ok [0x66, 0x6F] := by decide             -- "Zm9=": non-canonical form of "Zm8="
+example : fromBase64 [65, 61, 65, 65] = .ok [] ∧ fromBase64 [90, 109, 61, 65] = .ok [0x66] := by decide   -- misplaced `=`
+example : fromBase64 [90, 109, 56, 0x80] = .ok [] ∧ fromBase64 [90, 109, 56, 45] = .ok [] := by decide  -- byte >= 0x80, '-'
 example : b64Byte 65 = .ok (.val 0) ∧ b64Byte 0x80 = .ok .reject ∧ b64Byte 61 = .ok .stop := by decide
 example : Spec.rfc4648Encode [0x66, 0x6F] = [90, 109, 56, 61] := by decide           -- "fo" -> "Zm8="
 example : fromBase64 [90, 109, 56, 61] = .ok [0x66, 0x6F] := by decide
